@@ -9,10 +9,12 @@ KEYWORDS = set(['assign', 'assigner', 'break', 'bridge', 'send', 'control', 'sto
                 'and', 'or', 'param', 'rcvd_evt', 'self', 'selected', 'loop', 'then'])
 SEPS = {
     'plain': [' '],
-    'mixed': [' ', ' ', ' ', '\n', '\n    ', '\t', '  ', ' /* c */ ', ' /* two\n   lines */ ', ' // tail\n', '\n\n'],
-    'dense': ['\n', ' /* x */\n', '\t\t', ' // c\n  '],
+    # (block comments with stars and slashes inside, and with one, two or three stars in front of the closing slash)
+    'mixed': [' ', ' ', ' ', '\n', '\n    ', '\t', '  ', ' /* c */ ', ' /* two\n   lines */ ', ' // tail\n', '\n\n',
+              ' /***/ ', ' /* n **/ ', ' /** d */ ', ' /* a * b / c */ ', ' /****/ ', ' /* x ***/ '],
+    'dense': ['\n', ' /* x */\n', '\t\t', ' // c\n  ', ' /***/\n', ' /* e **/ '],
     # everything on one line, except that the two words of end if / end for / end while are on different lines
-    'line': [' ', ' ', ' ', '  ', '\t', ' /* c */ '],
+    'line': [' ', ' ', ' ', '  ', '\t', ' /* c */ ', ' /***/ ', ' /* n **/ '],
 }
 
 
@@ -81,7 +83,7 @@ def render(toks, seed, case='lower', layout='mixed', keep=None):
         if text or rnd.random() < 0.5:
             s = rnd.choice(SEPS[layout])
             if text and layout != 'plain' and rnd.random() < 0.2:
-                tight = rnd.choice(['', '', '', '/* t */', '// t\n', '/**/'])
+                tight = rnd.choice(['', '', '', '/* t */', '// t\n', '/**/', '/***/', '/* t **/'])
                 if tight == '' and can_glue(text, word_of(tok)):
                     s = ''
                 elif tight and text[-1] != '/' and not (layout == 'line' and '\n' in tight):
